@@ -28,6 +28,12 @@ func coTranslation(ctx *RunCtx) error {
 	svc := func(name string, k string) *tv.Package {
 		return &tv.Package{Name: name, Files: map[string]string{name + ".go": "package " + name + "\n\ntype Service interface {\n\tHandle(x uint64) uint64\n}\n\ntype Server struct {\n\tBase uint64\n}\n\nfunc (s Server) Handle(x uint64) uint64 {\n\treturn s.Base + x + " + k + "\n}\n\nfunc call(s Service, x uint64) uint64 {\n\treturn s.Handle(x)\n}\n\nfunc Run(x uint64) uint64 {\n\ts := Server{Base: " + k + "}\n\treturn call(s, x)\n}\n"}}
 	}
+	// the same names again with a different method set: every definition derived from the names
+	// (the interface record, the conversion, the method definitions) has a different text here
+	svc2 := func(name string) *tv.Package {
+		return &tv.Package{Name: name, Files: map[string]string{name + ".go": "package " + name + "\n\ntype Service interface {\n\tWeight() uint64\n\tHandle(x uint64) uint64\n\tPeek() uint64\n}\n\ntype Server struct {\n\tBase uint64\n\tHits uint64\n}\n\nfunc (s Server) Weight() uint64 {\n\treturn s.Hits + 1\n}\n\nfunc (s Server) Handle(x uint64) uint64 {\n\treturn s.Base * x\n}\n\nfunc (s Server) Peek() uint64 {\n\treturn s.Hits\n}\n\nfunc call(s Service, x uint64) uint64 {\n\treturn s.Handle(x) + s.Peek() + s.Weight()\n}\n\nfunc Run(x uint64) uint64 {\n\ts := Server{Base: 7}\n\treturn call(s, x)\n}\n"}}
+	}
+	pkgs = append(pkgs, svc2("svcd"), svc2("svce"))
 	pkgs = append(pkgs, svc("svca", "1"), svc("svcb", "2"), svc("svcc", "3"),
 		&tv.Package{Name: "dlib", Files: map[string]string{"dlib.go": "package dlib\n\nimport \"github.com/goose-lang/goose/machine/disk\"\n\nfunc First() disk.Block {\n\treturn disk.Read(0)\n}\n"}},
 		&tv.Package{Name: "dmid", Files: map[string]string{"dmid.go": "package dmid\n\nimport \"example.com/tvmod/dlib\"\n\nfunc Len() uint64 {\n\treturn uint64(len(dlib.First()))\n}\n"}},
@@ -49,6 +55,7 @@ func coTranslation(ctx *RunCtx) error {
 	}
 	configs := [][]string{{"store", "client"}, {"client", "store"}, {"store", "client", "other"}, {"other", "client", "store"}, {"client", "other"},
 		{"svca", "svcb"}, {"svcb", "svca", "svcc"}, {"svcc", "svca", "svcb", "store"},
+		{"svca", "svcd"}, {"svcd", "svca"}, {"svcd", "svcb", "svce", "svca"}, {"svce", "svcd"},
 		{"dlib", "dmid", "dapp1", "dapp2"}, {"dapp2", "dapp1", "dmid", "dlib"}, {"dapp1", "dapp2"}, {"dmid", "dapp2"}}
 	reps := 3
 	if ctx.Tier == "thorough" {
